@@ -65,13 +65,13 @@ End C20.
   parallel_axis_ref spatial_inertia inertia_add : smlin.
 
 (* ------------------------------------------------------------------------------------------------
-   Dispatch model of the class layer (no arithmetic).  Mirrors the code AS IT IS (HEAD df7016a):
+   Dispatch model of the class layer (no arithmetic).  Mirrors the code AS IT IS (HEAD 66a8f3b):
      SpatialVector.__add__/__sub__ : `type(left) != type(right)` -> TypeError, then `len` differ -> ValueError,
                                      then left.__class__([...]) (an empty list gives an empty object since 1105ad0)
      SpatialVector.__neg__         : same constructor
      SpatialVector(obj)            : copy, `list(value.data)` (df7016a)
      SpatialM6.cross               : only SpatialM6 has the method (AttributeError on force classes);
-                                     isinstance(other, SpatialVelocity) -> SpatialAcceleration([vcross @ x for x in other.data]),
+                                     isinstance(other, SpatialM6) -> SpatialAcceleration([vcross @ x for x in other.data])   (66a8f3b),
                                      isinstance(other, SpatialF6) -> SpatialForce([...]), else TypeError      (0da5cb1: element-wise)
      SpatialInertia.__mul__        : SpatialAcceleration -> SpatialForce, SpatialVelocity -> SpatialMomentum, else TypeError;
                                      element-wise on the right operand
@@ -104,9 +104,9 @@ Definition cross_model (l : svc) (r : rcls) (n : nat) : outcome :=
   match l with
   | Frc | Mom => Raise AttributeError
   | Vel | Acc => match r with
-                 | SV Vel => construct Acc n
+                 | SV Vel | SV Acc => construct Acc n
                  | SV Frc | SV Mom => construct Frc n
-                 | SV Acc | NotSV => Raise TypeError
+                 | NotSV => Raise TypeError
                  end
   end.
 Definition imul_model (r : rcls) (n : nat) : outcome :=
